@@ -13,7 +13,8 @@ import (
 var vServedActive, vServedSealed []string
 
 func vNewActive(base string) *frac.Active { vServedActive = append(vServedActive, base); return nil }
-func vLoadSealed(info *fracInfo) *frac.Sealed {
+func vNoFracCache(string) *sealedFracCache { return nil }
+func vLoadSealed(_ *sealedFracCache, info *fracInfo) *frac.Sealed {
 	vServedSealed = append(vServedSealed, info.base)
 	return nil
 }
